@@ -19,7 +19,9 @@ from vlib.gen import c09_histories as gen
 PROPERTY = "C09"
 LEVEL = "exploration"
 RULE = ("case = (option set {linear,voce,power law} x {rate independent, power-law rate sensitive} x {large,small} kinematics; "
-        "constants E/Y0 in [20,5e3], nu in [0,0.49], Y0 in [1e-2,1e3], hardening/rate parameters over 2-4 decades, either baked into "
+        "constants: yield strain Y0/(3 mu) stratified over the decades 1e-7 ... 3e-2 independently of the other ratios, E in [1e-3,1e9], nu in [0,0.49] "
+        "(plus the upstream test constants and, for the boundary classes, E/Y0 in [20,5e3]); hardening/rate parameters over 2-4 decades, hardening reference "
+        "strains absolute or multiples of the yield strain; increments either in multiples of the yield strain or with absolute upper ends; either baked into "
         "the compiled model as Python floats (as a user does) or passed as traced arguments (one compilation, fresh constants per case); "
         "history kind in {monotonic, reversing, nonproportional, tiny_large (1e-8 / 0.3 increments), at_yield (trial Mises = flow "
         "stress +- ulps / +- the 1e-10*Y0 yield tolerance), repeated_stretch, volumetric (zero / sub-threshold deviator)}; form in "
@@ -40,6 +42,12 @@ ASSUMPTIONS = [
     "C09-N1 (rate-sensitive option: ScalarRootFind exhausts its 50 iterations and the update returns an all-NaN state) is an open known finding: a non-finite state is "
     "attributed to it only for rate-sensitive options, an all-NaN state, and when an independent numpy location of the spec root shows the residual-tolerance band to be "
     "narrower than one float spacing at the root or than 2^-50 of the bracket; every other non-finite state is a violation (this is how D16 fires on the pre-fix tree)",
+    "extreme stiffness/yield-strain ratios add rounding bounds: (3mu+Y')*ulp(eqps) (resolution of the stored eqps) to the yield tolerances; for the library's own stress "
+    "(jax.grad) additionally 2mu|Ee|*8eps/gap (eigenvector conditioning of a Ce whose eigenvalue gaps are of the order of the yield strain), kappa|tr Ee|*|tr N| (flow "
+    "direction traceless only to rounding) and 2mu*8eps*|stored plastic strain| -- all negligible (<1e-10 Y0) for yield strains >= 1e-4; the state-based numpy yield check does not use them",
+    "C09-N2 (rate-independent; residual tolerance below one float spacing of eqps when eqps/(Y0/3mu) > ~1e6: NaN state or NaN energy/stress/re-update at the committed state) and "
+    "C09-N3 (absolute zero-strain guard |dev Ee|^2 <= 1e-16 active on a trial state beyond yield: only reachable for yield strains below ~8e-9, exercised by the class "
+    "yield_strain_below_guard) are open known findings with per-step structural classifiers; the same clauses failing on any other step are violations",
     "D8 (batched eigen-solver at repeated eigenvalues) is an open known finding: only batched-vs-single disagreements on large-kinematics steps whose "
     "eigen-solver input has a repeated eigenvalue pair (gap < 1e-8 |lambda|max and < 1e-3 of the spread) in a non-axis-aligned frame are attributed to it",
 ]
@@ -48,6 +56,9 @@ MAX_VACUOUS_FRACTION = 0.05
 
 D8_KEY = "D8:batched-eigen-repeated-nonaxis"
 N1_KEY = "C09-N1:rate-sensitive-rootfind-budget-exhausted"
+N2_KEY = "C09-N2:rootfind-tolerance-below-float-spacing"
+N3_KEY = "C09-N3:absolute-zero-strain-guard"
+GUARD_KINDS = ["monotonic", "nonproportional", "reversing", "at_yield"]
 HARDS = [("linear", "lin"), ("voce", "voce"), ("power", "pow")]
 KINS = ["large", "small"]
 BOUNDARY = [("perfect_plasticity", "linear", "perfect"), ("voce_ysat_eq_y0", "voce", "voce_ysat_eq_y0"),
@@ -59,8 +70,8 @@ TIERS = {
     # nb baked constant sets per option set (set 0 = upstream test constants), cb cases per kind per baked set,
     # nt traced-constant groups per option set, ct cases per kind per traced group (fresh constants per case),
     # bnb/bcb the same for the boundary classes, bct traced boundary cases per (class, kinematics)
-    "quick": dict(nb=2, cb=1, nt=1, ct=2, bnb=1, bcb=1, bct=3),
-    "thorough": dict(nb=5, cb=14, nt=6, ct=15, bnb=2, bcb=10, bct=60),
+    "quick": dict(nb=2, cb=1, nt=1, ct=3, bnb=1, bcb=1, bct=3, gct=1),
+    "thorough": dict(nb=5, cb=14, nt=6, ct=15, bnb=2, bcb=10, bct=60, gct=4),
 }
 
 
@@ -81,10 +92,18 @@ def _required():
                 o = optname(hard, rate, kin)
                 req["opt:%s:steps" % o] = 800
                 req["opt:%s:plastic" % o] = 400
+    for b in gen.YS_BANDS:
+        req["ys_band_%d:plastic" % b] = 600
+        req["ys_band_%d:elastic" % b] = 300
+        req["ys_band_%d:land" % b] = 30
+    req.update({"dev_strain_1e-8_to_1e-4:plastic": 1000, "dev_strain_1e-8_to_1e-4:elastic": 1000, "scale:yield": 100, "scale:absolute": 100,
+                "E_scale:lt_1": 20, "E_scale:1_to_1e3": 50, "E_scale:1e3_to_1e6": 30, "E_scale:ge_1e6": 20})
     for cls in gen.KINDS:
         req["class:" + cls] = 24
     for cls, _, _ in BOUNDARY:
         req["class:" + cls] = 10
+    req["class:yield_strain_below_guard"] = 10
+    req["guard_active_beyond_yield_steps"] = 30
     return req
 
 
@@ -97,33 +116,47 @@ def build_cases(tier, seed):
     T = TIERS[tier]
     cases = []
 
-    def add(cls, group, hard, rate, kin, mode, consts, kind, i, first):
+    def add(cls, group, hard, rate, kin, mode, consts, kind, i, first, scale=None):
         s = derive_seed(seed, PROPERTY, cls, optname(hard, rate, kin), mode, kind, i, json.dumps(consts, sort_keys=True))
         r = rng_of(s)
         nsteps = int(r.integers(5, 41))
         form = str(r.choice(["plane_strain", "3d"]))
+        if scale is None:
+            scale = "yield" if r.random() < 0.6 else "absolute"
         cases.append({"cls": cls, "group": group, "cost": 0.004 * NH * nsteps + (12.0 if first else 0.0), "seed": s,
                       "opt": optname(hard, rate, kin), "hard": hard, "rate": rate, "kin": kin, "mode": mode,
-                      "consts": consts, "kind": kind, "form": form, "nsteps": nsteps, "nh": NH})
+                      "consts": consts, "kind": kind, "form": form, "nsteps": nsteps, "nh": NH, "scale": scale,
+                      "ys_band": gen.ys_band(consts)})
 
+    # The yield strain Y0/(3 mu) is swept over the decades 1e-7 ... 3e-2 independently of the other ratios (stratified:
+    # traced-constant cases cycle through the six bands; baked set 1 of every option set lies in one of the three lowest
+    # bands, further baked sets cycle through all), and E itself over 1e-3 ... 1e9.
+    nband = len(gen.YS_BANDS)
+    n_traced = 0
+    oi = -1
     for hard, _ in HARDS:
         for rate in (0, 1):
             for kin in KINS:
                 o = optname(hard, rate, kin)
+                oi += 1
                 for j in range(T["nb"]):
                     cr = rng_of(derive_seed(seed, PROPERTY, "consts", o, j))
-                    consts = gen.reference_constants(hard, rate) if j == 0 else gen.random_constants(cr, hard, rate)
+                    band = None if j == 0 else gen.YS_BANDS[(oi + seed) % 3] if j == 1 else gen.YS_BANDS[(oi + j + seed) % nband]
+                    consts = gen.reference_constants(hard, rate) if j == 0 else gen.random_constants(cr, hard, rate, band=band)
                     first = True
                     for kind in gen.KINDS:
                         for i in range(T["cb"]):
-                            add(kind, "%s/B%d" % (o, j), hard, rate, kin, "baked", consts, kind, i, first)
+                            add(kind, "%s/B%d" % (o, j), hard, rate, kin, "baked", consts, kind, i, first,
+                                scale="absolute" if j == 0 else "yield" if j == 1 else None)
                             first = False
                 for g in range(T["nt"]):
                     first = True
                     for kind in gen.KINDS:
                         for i in range(T["ct"]):
                             cr = rng_of(derive_seed(seed, PROPERTY, "tconsts", o, g, kind, i))
-                            add(kind, "%s/T%d" % (o, g), hard, rate, kin, "traced", gen.random_constants(cr, hard, rate), kind, g * 100000 + i, first)
+                            band = gen.YS_BANDS[(n_traced + seed) % nband]
+                            n_traced += 1
+                            add(kind, "%s/T%d" % (o, g), hard, rate, kin, "traced", gen.random_constants(cr, hard, rate, band=band), kind, g * 100000 + i, first)
                             first = False
     # boundary-of-admissibility classes (rate independent: that is where the hardening slope can vanish)
     for cls, hard, bnd in BOUNDARY:
@@ -135,12 +168,24 @@ def build_cases(tier, seed):
                 first = True
                 for kind in BOUNDARY_KINDS:
                     for i in range(T["bcb"]):
-                        add(cls, "bnd/%s/%s/B%d" % (cls, kin, j), hard, 0, kin, "baked", consts, kind, i, first)
+                        add(cls, "bnd/%s/%s/B%d" % (cls, kin, j), hard, 0, kin, "baked", consts, kind, i, first, scale="absolute")
                         first = False
             for i in range(T["bct"]):
                 cr = rng_of(derive_seed(seed, PROPERTY, "btconsts", cls, kin, i))
                 kind = BOUNDARY_KINDS[i % len(BOUNDARY_KINDS)]
-                add(cls, "%s/T%d" % (o, i % T["nt"]), hard, 0, kin, "traced", gen.random_constants(cr, hard, 0, bnd), kind, i, False)
+                add(cls, "%s/T%d" % (o, i % T["nt"]), hard, 0, kin, "traced", gen.random_constants(cr, hard, 0, bnd), kind, i, False, scale="absolute")
+    # yield strain below the library's absolute zero-strain guard (|dev Ee| <= 1e-8 gets a fixed dummy flow direction):
+    # open finding C09-N3 lives here; traced constants, so no extra compilation
+    oi = -1
+    for hard, _ in HARDS:
+        for rate in (0, 1):
+            for kin in KINS:
+                o = optname(hard, rate, kin)
+                oi += 1
+                for i in range(T["gct"] * T["nt"]):
+                    cr = rng_of(derive_seed(seed, PROPERTY, "gconsts", o, i))
+                    add("yield_strain_below_guard", "%s/T%d" % (o, i % T["nt"]), hard, rate, kin, "traced",
+                        gen.random_constants(cr, hard, rate, band=-9), GUARD_KINDS[(oi + i) % len(GUARD_KINDS)], i, False, scale="yield")
     return cases
 
 
@@ -221,6 +266,10 @@ def _check_step(res, case, law, fns, k, H, st_old, dt, st_new, tag, info, acc):
     if plastic:
         res.count("opt:%s:plastic" % o)
     res.count("dt_decade_%d" % int(math.floor(math.log10(dt))))
+    yb = case.get("ys_band", gen.ys_band(case["consts"]))
+    res.count("ys_band_%d:%s" % (yb, "plastic" if plastic else "elastic"))
+    if 1e-8 < ndev_tr <= 1e-4:          # between the library's zero-strain guard (|dev Ee| = 1e-8) and 1e-4
+        res.count("dev_strain_1e-8_to_1e-4:%s" % ("plastic" if plastic else "elastic"))
     res.count("step_" + tag)
     if tag == "large" and plastic:
         res.count("large_increment_plastic")
@@ -228,11 +277,21 @@ def _check_step(res, case, law, fns, k, H, st_old, dt, st_new, tag, info, acc):
         res.count("dummy_direction_steps")
     if tag == "land":
         res.count("land_plastic" if plastic else "land_elastic")
+        res.count("ys_band_%d:land" % yb)
         if 0.0 < info["delta"] <= ref.TOL_SOLVER * (1 + 1e-5):
             res.count("land_within_tol_band")
     slope = law.slope_static(e_new)
     if plastic and slope <= 1e-12 * Y0 and not rate:
         res.count("zero_slope_plastic_steps")
+
+    # open finding C09-N3: the library's zero-strain guard is absolute (|dev Ee|^2 <= 1e-16 -> fixed dummy flow direction).  When
+    # the whole yield surface lies inside that ball (yield strain below ~8e-9) a trial state beyond yield is handled with the
+    # dummy direction.  Structural class of this step: guard active on the trial strain AND trial Mises beyond the flow stress.
+    guard_beyond = bool(ndev_tr ** 2 <= 1e-16 * (1 + 1e-6) and trial - Yold > 2e-9 * Y0)
+    n3 = N3_KEY if guard_beyond else None
+    tagc = "[N3 class]" if n3 else ""
+    if guard_beyond:
+        res.count("guard_active_beyond_yield_steps")
 
     # 1. irreversibility (exact: the root is bracketed from below by eqps_old)
     res.bound("irreversible", max(0.0, -de), 0.0, ctx)
@@ -272,9 +331,22 @@ def _check_step(res, case, law, fns, k, H, st_old, dt, st_new, tag, info, acc):
     Y_lo = Ystat + float(law.over(max(de - u, 0.0), dt))
     Ydyn = Y_hi
     tolY = (ref.TOL_SOLVER + 1e-9) * Y0 + 200 * ref.EPS * 2 * mu * (1.0 + float(ref.fro(tq["Ee"]))) * condp
-    res.bound("yield_state", mises_state - Y_hi, tolY, dict(ctx, mises=mises_state, flow=Y_hi))
+    # resolution of the state: one float spacing of eqps changes the residual by (3 mu + Y') * ulp(eqps); when the yield
+    # strain is tiny and eqps large this exceeds the solver tolerance and no representable eqps can do better
+    res_round = (3 * mu + float(slope)) * float(onp.spacing(max(e_new, 1e-300)))
+    tolY += res_round
+    # large kinematics: the eigenvectors of a trial Ce with nearly repeated eigenvalues (relative gap g, here ~ the elastic
+    # strain differences, i.e. ~ the yield strain) are accurate to ~eps/g only (conditioning of the eigenvectors; documented
+    # for the library's tensor functions as error ~ eps/gap); through them the whole log strain, including its volumetric
+    # part, leaks into the library's deviatoric stress: rounding bound 2 mu |Ee| 8 eps / g
+    r_eig = 0.0
+    if kin == "large":
+        g_ce = ref.spectral_info(tq["Ce"])[0]
+        if g_ce >= 1e-9:
+            r_eig = 2 * mu * float(ref.fro(tq["Ee"])) * 8 * ref.EPS / g_ce
+    res.bound("yield_state" + tagc, mises_state - Y_hi, tolY, dict(ctx, mises=mises_state, flow=Y_hi), n3)
     if plastic:
-        res.bound("consistency_on_surface", max(mises_state - Y_hi, Y_lo - mises_state), tolY, dict(ctx, mises=mises_state, flow_lo=Y_lo, flow_hi=Y_hi))
+        res.bound("consistency_on_surface" + tagc, max(mises_state - Y_hi, Y_lo - mises_state), tolY, dict(ctx, mises=mises_state, flow_lo=Y_lo, flow_hi=Y_hi), n3)
 
     # ... and from the library's own stress
     Finv = _norm2(onp.linalg.inv(tq["F"])) if kin == "large" else 1.0
@@ -284,16 +356,53 @@ def _check_step(res, case, law, fns, k, H, st_old, dt, st_new, tag, info, acc):
     # the computed flow direction is traceless only to rounding (see clause 2); through the implicit derivative of the
     # pre-commit energy the pressure kappa*tr(Ee) sees that trace: |p| * |tr N| (rounding bound, safety 16)
     trE = abs(float(onp.trace(tq["Ee"])))
-    tolY2 += law.kappa * trE * 16 * ref.EPS * ref.SQ32 * (1.0 + (trE / 3.0 + float(ref.fro(tq["Ee"]))) / max(ndev_tr, 1e-300)) * Finv
+    tolY2 += r_eig * Finv
+    if not (math.isfinite(W_old) and onp.all(onp.isfinite(P_old))):
+        # the pre-commit energy/stress is not finite although the state is: same root-finder failure inside the energy
+        sig = ref.rootfind_budget_signature(law, trial, e_old, dt, noise=tolY)
+        mech = (N1_KEY if rate else N2_KEY) if (sig["match"] and (rate or sig["unrepresentable"])) else None
+        res.checks += 1
+        res.count("nonfinite_energy_precommit")
+        res.violate("finite_energy_precommit" + ("[%s class]" % mech.split(":")[0][4:] if mech else ""), dict(ctx, W_old=W_old, rootfind=sig), mech)
+        return {"repeated_nonaxis": False, "min_gap": None}
+    r_trN = law.kappa * trE * 16 * ref.EPS * ref.SQ32 * (1.0 + (trE / 3.0 + float(ref.fro(tq["Ee"]))) / max(ndev_tr, 1e-300)) * Finv
+    tolY2 += r_trN
     if rate:
         m_lib = ref.mises_of_stress(kin, P_old, H)
-        res.bound("yield_stress_precommit", m_lib - Ydyn, tolY2, dict(ctx, mises=m_lib, flow=Ydyn))
+        res.bound("yield_stress_precommit" + tagc, m_lib - Ydyn, tolY2, dict(ctx, mises=m_lib, flow=Ydyn), n3)
         res.count("yield_stress_precommit_checks")
     else:
         W_new, P_new = wp(H, st_new, dt)
         W_new, P_new = float(W_new), onp.asarray(P_new, dtype=float)
+        st2 = onp.asarray(upd(H, st_new, dt), dtype=float)
+        if not (math.isfinite(W_new) and onp.all(onp.isfinite(P_new)) and onp.all(onp.isfinite(st2))):
+            # energy / stress / re-update at the committed state is not finite: refutes yield consistency, idempotence and
+            # commit invariance at once.  Recognised mechanism: open finding C09-N2 (the committed state sits on the yield
+            # surface to rounding, the library re-yields by rounding noise, and the residual tolerance is below one float
+            # spacing of eqps so that the root finder stagnates) -- structural signature from the reference model.
+            sig = ref.rootfind_budget_signature(law, mises_state, e_new, dt, noise=tolY)
+            mech = N2_KEY if (sig["match"] and sig["unrepresentable"]) else None
+            res.checks += 1
+            res.count("nonfinite_at_committed_state")
+            if mech:
+                res.count("nonfinite_at_committed_state_N2")
+            res.violate("finite_at_committed_state" + ("[N2 class]" if mech else ""),
+                        dict(ctx, W_new=W_new, reupdate_finite=bool(onp.all(onp.isfinite(st2))), rootfind=sig, yield_strain=Y0 / (3 * mu)), mech)
+            return {"repeated_nonaxis": False, "min_gap": None, "skip_batched": True}
         m_lib = ref.mises_of_stress(kin, P_new, H)
-        res.bound("yield_stress_committed", m_lib - Ydyn, tolY2, dict(ctx, mises=m_lib, flow=Ydyn))
+        # rounding of the library's stress at the committed state: that state sits on the yield surface, its elastic strain
+        # differences (and hence the eigenvalue gaps of Ce) are of the order of the yield strain, and the library may
+        # re-yield there by rounding noise -- eigenvector conditioning and pressure*tr(N) leak evaluated at the committed state
+        r_eig_new = 0.0
+        if kin == "large":
+            tqn = ref.trial_quantities(kin, H, pl_new)
+            g_new = ref.spectral_info(tqn["Ce"])[0]
+            if g_new >= 1e-9:
+                r_eig_new = 2 * mu * float(ref.fro(tqn["Ee"])) * 8 * ref.EPS / g_new
+        mag = (float(ref.fro(pl_new)) + float(ref.fro(H))) if kin == "small" else (1.0 + float(ref.fro(tq["Ee"]))) * condp
+        r_trN_new = (law.kappa * trE * 16 * ref.EPS * ref.SQ32 * (1.0 + mag / max(float(ref.fro(dE_new)), 1e-300)) * Finv) if plastic else 0.0
+        tolY3 = tolY2 + (r_eig_new + r_trN_new) * (_norm2(tq["F"]) if kin == "large" else 1.0)
+        res.bound("yield_stress_committed" + tagc, m_lib - Ydyn, tolY3, dict(ctx, mises=m_lib, flow=Ydyn), n3)
         res.count("yield_stress_committed_checks")
         # 6. commit invariance of W and P
         hard_scale = abs(float(law.energy_static(e_new)))
@@ -301,11 +410,15 @@ def _check_step(res, case, law, fns, k, H, st_old, dt, st_new, tag, info, acc):
         # rounding of the strain measure (absolute ~ eps*(1+|Ee|)*cond) seen through the stress
         rW = 50 * ref.EPS * (2 * mu * ndev_tr + law.kappa * abs(float(onp.trace(tq["Ee"])))) * (1.0 + float(ref.fro(tq["Ee"]))) * condp
         res.bound("commit_invariance_W", abs(W_old - W_new), 1e-12 * sW + rW + ref.TOL_SOLVER * Y0 * (abs(de) + ref.TOL_SOLVER) + 1e-300, dict(ctx, W_old=W_old, W_new=W_new))
+        # the committed plastic strain / distortion is stored to one rounding; seen through 2 mu (rounding bound, safety 8)
+        r_state = 2 * mu * 8 * ref.EPS * ((float(ref.fro(pl_new)) + float(ref.fro(H))) if kin == "small" else (1.0 + float(ref.fro(tq["Ee"]))) * condp)
+        # the committed state sits on the yield surface to rounding; when the library re-yields there by rounding noise the
+        # same pressure * tr(N) leak as in the pre-commit stress occurs, with the (tiny) committed elastic deviator as
+        # denominator and the magnitudes of the cancelling inputs as numerator
         sP = float(onp.linalg.norm(P_new)) + (2 * mu * float(ref.fro(tq["Ee"])) + law.kappa * abs(float(onp.trace(tq["Ee"])))) * Finv
-        res.bound("commit_invariance_P", float(onp.max(onp.abs(P_old - P_new))), 1e-12 * sP + 20 * ref.TOL_SOLVER * Y0 * Finv, ctx)
+        res.bound("commit_invariance_P", float(onp.max(onp.abs(P_old - P_new))), 1e-12 * sP + (20 * ref.TOL_SOLVER * Y0 + res_round + r_eig + r_eig_new + r_state) * Finv + r_trN + r_trN_new, ctx)
         res.count("commit_checks")
         # 7. idempotence
-        st2 = onp.asarray(upd(H, st_new, dt), dtype=float)
         tol_id = 1e-12 * max(1.0, float(onp.max(onp.abs(st_new)))) + 2 * ref.TOL_SOLVER * Y0 / (3 * mu) * ref.SQ32 * max(1.0, _norm2(pl_new))
         dd = float(onp.max(onp.abs(st2 - st_new))) if onp.all(onp.isfinite(st2)) else float("nan")
         res.bound("idempotent", dd, tol_id, ctx)
@@ -350,8 +463,8 @@ def _check_step(res, case, law, fns, k, H, st_old, dt, st_new, tag, info, acc):
     ok = onp.isfinite(Phi_c)
     res.count("var_candidates", int(onp.sum(ok)))
     j = int(onp.argmax(onp.where(ok, ratio, -onp.inf)))
-    res.bound("variational", float(ratio[j]), 1.0,
-              dict(ctx, undercut=float(Phi_star - Phi_c[j]), tol=float(tolPhi[j]), cand_d_eqps=float(ec_inc[j]), cand_index=j))
+    res.bound("variational" + tagc, float(ratio[j]), 1.0,
+              dict(ctx, undercut=float(Phi_star - Phi_c[j]), tol=float(tolPhi[j]), cand_d_eqps=float(ec_inc[j]), cand_index=j), n3)
 
     # facts for the batched cross-check classifier
     facts = {"repeated_nonaxis": False, "min_gap": None}
@@ -372,7 +485,8 @@ def run_case(case):
     fns = _fns(case)
     upd, wp, updB, init = fns
     B, n, kin = case["nh"], case["nsteps"], case["kin"]
-    gens = [gen.History(rng_of(derive_seed(case["seed"], "hist", i)), case["kind"], case["form"], kin, law, n) for i in range(B)]
+    gens = [gen.History(rng_of(derive_seed(case["seed"], "hist", i)), case["kind"], case["form"], kin, law, n, case.get("scale", "absolute"))
+            for i in range(B)]
     H = [onp.zeros((3, 3)) for _ in range(B)]
     st = [init.copy() for _ in range(B)]
     alive = [True] * B
@@ -380,6 +494,9 @@ def run_case(case):
     res.count("mode:" + case["mode"])
     res.count("form:" + case["form"])
     res.count("histories", B)
+    res.count("scale:" + case.get("scale", "absolute"))
+    le = math.log10(law.E)
+    res.count("E_scale:" + ("lt_1" if le < 0 else "1_to_1e3" if le < 3 else "1e3_to_1e6" if le < 6 else "ge_1e6"))
     for k in range(n):
         Hn, dts, tags, infos, new = [], [], [], [], []
         for i in range(B):
@@ -399,17 +516,25 @@ def run_case(case):
                 continue
             ctx = {"history": i, "step": k, "tag": tags[i], "dt": dts[i]}
             e_old_i, pl_old_i = ref.split_state(st[i])
-            trial_i = float(ref.mises_of_dev_strain(law.mu, ref.trial_quantities(kin, Hn[i], pl_old_i)["devEe"]))
+            if kin == "large" and not (onp.linalg.det(Hn[i] + onp.eye(3)) > 0.05):
+                raise RuntimeError("harness generated an inadmissible displacement gradient (det F <= 0.05)")
+            tq_i = ref.trial_quantities(kin, Hn[i], pl_old_i)
+            trial_i = float(ref.mises_of_dev_strain(law.mu, tq_i["devEe"]))
+            # rounding bound of the trial stress (same form as the yield tolerance of the trace checker)
+            cond_i = _norm2(pl_old_i) * _norm2(onp.linalg.inv(pl_old_i)) if kin == "large" else 1.0
+            noise_i = 1e-9 * law.Y0 + 200 * ref.EPS * 2 * law.mu * (1.0 + float(ref.fro(tq_i["Ee"]))) * cond_i
             if not onp.all(onp.isfinite(new[i])):
                 # a non-finite state refutes every clause.  The only recognised mechanism is the open finding C09-N1
                 # (rate-sensitive option, root finder budget exhausted), identified by its structural signature.
                 res.count("nonfinite_states")
-                sig = ref.rootfind_budget_signature(law, trial_i, e_old_i, dts[i])
-                mech = N1_KEY if (case["rate"] and sig["match"] and onp.all(onp.isnan(new[i]))) else None
+                sig = ref.rootfind_budget_signature(law, trial_i, e_old_i, dts[i], noise=noise_i)
+                mech = None
+                if sig["match"] and onp.all(onp.isnan(new[i])):
+                    mech = N1_KEY if case["rate"] else (N2_KEY if sig["unrepresentable"] else None)
                 if mech:
-                    res.count("nonfinite_states_N1")
+                    res.count("nonfinite_states_N1" if mech == N1_KEY else "nonfinite_states_N2")
                 res.checks += 1
-                res.violate("finite_state" + ("[N1 class]" if mech else ""),
+                res.violate("finite_state" + ("[N1 class]" if mech == N1_KEY else "[N2 class]" if mech else ""),
                             dict(ctx, state_new=new[i], H=Hn[i], state_old=st[i], trial_minus_flow_over_Y0=(trial_i - float(law.flow_static(e_old_i))) / law.Y0,
                                  hardening_slope=float(law.slope_static(e_old_i)), rootfind=sig), mech)
                 # the step is not committed; the history continues from the last finite state
@@ -425,15 +550,18 @@ def run_case(case):
             tolB = 1e-12 * max(1.0, float(onp.max(onp.abs(new[i])))) + 2 * ref.TOL_SOLVER * law.Y0 / (3 * law.mu) * ref.SQ32 * max(1.0, _norm2(pl_new))
             dB = float(onp.max(onp.abs(stB[i] - new[i]))) if onp.all(onp.isfinite(stB[i])) else float("nan")
             mech = D8_KEY if (kin == "large" and facts["repeated_nonaxis"]) else None
-            if mech is None and case["rate"] and onp.all(onp.isnan(stB[i])):
-                sig = ref.rootfind_budget_signature(law, trial_i, e_old_i, dts[i])
-                if sig["match"]:
-                    mech = N1_KEY
-                    res.count("nonfinite_batched_N1")
+            if facts.get("skip_batched"):
+                H[i], st[i] = Hn[i], new[i]
+                continue
+            if mech is None and onp.all(onp.isnan(stB[i])):
+                sig = ref.rootfind_budget_signature(law, trial_i, e_old_i, dts[i], noise=noise_i)
+                if sig["match"] and (case["rate"] or sig["unrepresentable"]):
+                    mech = N1_KEY if case["rate"] else N2_KEY
+                    res.count("nonfinite_batched_N1" if case["rate"] else "nonfinite_batched_N2")
             res.count("batched_steps")
             if facts["repeated_nonaxis"]:
                 res.count("batched_steps_in_D8_class")
-            res.bound("batched_equals_single" + ("[D8 class]" if mech == D8_KEY else "[N1 class]" if mech else ""), dB, tolB, dict(ctx, min_rel_gap=facts["min_gap"], H=Hn[i], state_old=st[i]), mech)
+            res.bound("batched_equals_single" + ("[D8 class]" if mech == D8_KEY else "[N1 class]" if mech == N1_KEY else "[N2 class]" if mech else ""), dB, tolB, dict(ctx, min_rel_gap=facts["min_gap"], H=Hn[i], state_old=st[i]), mech)
             H[i], st[i] = Hn[i], new[i]
     if res.obs.get("plastic_steps", 0) > 0:
         res.nontrivial = True
